@@ -109,11 +109,12 @@ check("C03", "Lean 4 theorems (root enumeration complete, detector-layer complet
       "Proved: asin/acos root pairs enumerate ALL solutions mod 2 pi; the detector layers from qaz, delta and nu return every triple satisfying the detector relation, sign filter included (detRemaining_complete); "
       "sample-layer completeness mod 2 pi (Props/C03Sample*.lean): all nine detector+two-sample branches (three of them through soundness + uniqueness of the last angle), all four single-sample "
       "branches of the detector+reference family (remainingSample_complete), all six reference+two-sample branches (C03Reference: twoSampleReference_complete), the three-sample family end to end (threeSample_complete) and "
-      "the detector+two-sample family end to end for all 27 mode shapes (detSamp2_complete: a position whose forward model is the requested hkl, honouring the detector constraint and the two sample values, "
-      "is among the candidates of __calc_hkl_to_position mod 2 pi); a candidate "
+      "END-TO-END completeness for all four mode families (a position whose forward model is the requested hkl and which honours the mode's constraints is among the candidates of "
+      "__calc_hkl_to_position mod 2 pi): detector+two-sample, 27 shapes (detSamp2_complete); reference+two-sample, 42 shapes (refSamp2_complete; outright for the six psi modes); "
+      "detector-or-naz+reference+one-sample, 112 shapes (detRefSamp_complete, via _calc_N = triad, triad equivariance, the naz-qaz relation and detOrNaz_complete); a candidate "
       "that is exactly consistent passes filter and guard; get_position returns the filtered list iff EVERY element passes the guard (allOrNothing). The model is compared with "
       "__calc_hkl_to_position at candidate level on regular positions of all 185 modes; the oracle requires every regular physical position to come back (173 modes recover; the 12 naz + surface-reference modes and psi within 1e-5 deg of its turning points are recorded known findings).",
-      "Lean kernel; standard axioms; PARTIAL: branch completeness is proved for every branch of every family, but the layer statements are assembled end to end for the three-sample and the detector+two-sample families only (31 of 185 mode shapes); side conditions: generic branch at the position, no sibling root raising; regularity judged numerically; known findings C03-naz-with-surface-reference and C03-psi-at-turning-point.",
+      "Lean kernel; standard axioms; PARTIAL: branch completeness is proved for every branch of every family, the layer statements are assembled end to end for all four families; for the two families with a reference constraint the contribution of the reference layer (psi list / alpha) enters as a hypothesis on the value it produced; side conditions: generic branch at the position, no sibling root raising; regularity judged numerically; known findings C03-naz-with-surface-reference and C03-psi-at-turning-point.",
       "DESIGN.md §6 C03")
 
 check("C11", "Lean 4 no-leak calculus assembled over the whole solver model (finite-real reading) + special-value execution",
